@@ -95,10 +95,22 @@ def gen_plan(seed: int, run: int, tier: str) -> dict:
     victims = rng.sample(names, 1 if rng.random() < 0.75 or len(names) < 3 else 2)
     for v in victims:
         nops = len(tasks[v]["ops"])
-        kinds = FS_KINDS if journal else SQL_KINDS
+        oi = frng.randrange(nops)
+        # prefer calls that write (3 of 4 faults): a getter only opens, stats and reads
+        writers = [i for i, o in enumerate(tasks[v]["ops"]) if not o["op"].startswith("get_")]
+        if writers and frng.random() < 0.75:
+            oi = frng.choice(writers)
+        is_getter = tasks[v]["ops"][oi]["op"].startswith("get_")
+        if journal:
+            kinds = ["fs.open", "fs.stat", "fs.read", "fs.read"] if is_getter else ["fs.symlink", "fs.open_excl", "fs.open", "fs.lseek", "fs.read", "fs.write", "fs.fsync", "fs.rename", "fs.unlink", "fs.stat", "fs.open", "fs.read", "fs.truncate"]
+        else:
+            kinds = SQL_KINDS
         fk = frng.choice(kinds)
-        f: dict[str, Any] = {"victim": v, "op_index": frng.randrange(nops), "kind": fk, "nth": frng.choice([0, 0, 0, 1, 1, 2, 3, 5, 8, 13, 21]) if not journal else frng.choice([0, 0, 0, 1, 1, 2, 3])}
-        if journal and (fk == "fs.write" or frng.random() < 0.35):
+        f: dict[str, Any] = {"victim": v, "op_index": oi, "kind": fk, "nth": frng.choice([0, 0, 0, 1, 1, 2, 3, 5, 8, 13]) if not journal else frng.choice([0, 0, 0, 0, 1, 1, 2])}
+        if fk in ("fs.symlink", "fs.open_excl"):
+            # the victim uses one lock class; make the kind match it later (run time knows)
+            f["kind"] = "fs.lock_create"
+        if journal and not is_getter and (fk == "fs.write" or frng.random() < 0.35):
             f["kind"] = "fs.write"
             f["nth"] = 0
             f["tear"] = frng.choice(["0", "1", "2", "mid", "last", "rand", "rand", "utf8"])
@@ -208,7 +220,7 @@ def _run(plan: dict, sim: sched.Sim, ch: sched.Chooser, dep: deploy.Deployment) 
         for f in faults:
             if f.get("fired") or f["victim"] != name or f["op_index"] != cur_op[name]:
                 continue
-            if f["kind"] != skind:
+            if f["kind"] != skind and not (f["kind"] == "fs.lock_create" and skind in ("fs.symlink", "fs.open_excl")):
                 continue
             if "tear" in f:
                 # crash before the second chunk of the torn write
